@@ -772,4 +772,349 @@ theorem atoi16_atoi8_digit_string (base : BitVec 8) (chars : List Byte) (t : Byt
 
 example : ∃ (c : Byte), digitValue c < (10#8 : BitVec 8).toNat ∧ ¬ digitValue 0#8 < (10#8 : BitVec 8).toNat := ⟨0x35#8, by decide⟩
 
+
+/-! ### letter case, per function (audit F2a).  The property's "same canonical text" is up to the
+    case of the letters: igris_i*toa and the four libc shims write LOWER case, igris_u*toa, the
+    debug hex printers and uintNN_to_hex write UPPER case; every parser reads both
+    (`digit_either_case`, `ato_inverse_other_case`).  The statements below are about what each
+    function leaves in the buffer (`take e` = the text in front of the terminator). -/
+
+/-- igris_i64toa (and, through it, i32/i16/i8toa): no upper-case letter -/
+theorem i64toa_letters_lower (num : BitVec 64) (base : BitVec 8) (hb : 2 ≤ base.toNat ∧ base.toNat ≤ 36)
+    (m : List Byte) (hm : 66 ≤ m.length) :
+    ∃ m' e, i64toa num m base = some (m', e) ∧ ∀ c ∈ m'.take e, ¬ (65 ≤ c.toNat ∧ c.toNat ≤ 90) := by
+  have hl := i64toa_bytes_le_66 num base hb.1
+  refine ⟨_, _, i64toa_canonical num base hb m (by omega), ?_⟩
+  intro c hc
+  simp only [List.take_left'] at hc
+  rcases canonInt_mem hb.1 false _ c hc with rfl | ⟨d, hd, rfl⟩
+  · decide
+  · exact digitChar_lower_not_upper d (by omega)
+
+/-- igris_u64toa (and u32/u16/u8toa): no lower-case letter -/
+theorem u64toa_letters_upper (num : BitVec 64) (base : BitVec 8) (hb : 2 ≤ base.toNat ∧ base.toNat ≤ 36)
+    (m : List Byte) (hm : 66 ≤ m.length) :
+    ∃ m' e, u64toa num m base = some (m', e) ∧ ∀ c ∈ m'.take e, ¬ (97 ≤ c.toNat ∧ c.toNat ≤ 122) := by
+  have hl := digits_length_le_64 base.toNat num.toNat hb.1 num.isLt
+  refine ⟨_, _, u64toa_canonical num base hb m (by rw [canonNat_length]; omega), ?_⟩
+  intro c hc
+  simp only [List.take_left'] at hc
+  obtain ⟨d, hd, rfl⟩ := canonNat_mem hb.1 true _ c hc
+  exact digitChar_upper_not_lower d (by omega)
+
+/-- the libc shims: all four write lower case — `utoa`/`ultoa` differ from igris_u32toa/u64toa
+    in the case of the letters (bases above 10), and only in that -/
+theorem lc_letters_lower (n32 : BitVec 32) (n64 : BitVec 64) (base : BitVec 16) (hb : 2 ≤ base.toNat ∧ base.toNat ≤ 36)
+    (m : List Byte) (hm : 66 ≤ m.length) (c : Byte) :
+    (∀ m', itoa n32 m base = some (m', 0) → c ∈ m'.takeWhile (· ≠ 0#8) → ¬ (65 ≤ c.toNat ∧ c.toNat ≤ 90)) ∧
+    (∀ m', utoa n32 m base = some (m', 0) → c ∈ m'.takeWhile (· ≠ 0#8) → ¬ (65 ≤ c.toNat ∧ c.toNat ≤ 90)) ∧
+    (∀ m', ltoa n64 m base = some (m', 0) → c ∈ m'.takeWhile (· ≠ 0#8) → ¬ (65 ≤ c.toNat ∧ c.toNat ≤ 90)) ∧
+    (∀ m', ultoa n64 m base = some (m', 0) → c ∈ m'.takeWhile (· ≠ 0#8) → ¬ (65 ≤ c.toNat ∧ c.toNat ≤ 90)) := by
+  have key : ∀ (txt tl : List Byte), (∀ x ∈ txt, x ≠ 0#8 ∧ ¬ (65 ≤ x.toNat ∧ x.toNat ≤ 90)) →
+      c ∈ (txt ++ 0#8 :: tl).takeWhile (· ≠ 0#8) → ¬ (65 ≤ c.toNat ∧ c.toNat ≤ 90) := by
+    intro txt tl h hc
+    rw [takeWhile_nul txt tl (fun x hx => (h x hx).1)] at hc
+    exact (h c hc).2
+  have lowI : ∀ v : Int, ∀ x ∈ canonInt false base.toNat v, x ≠ 0#8 ∧ ¬ (65 ≤ x.toNat ∧ x.toNat ≤ 90) := by
+    intro v x hx
+    rcases canonInt_mem hb.1 false _ x hx with rfl | ⟨d, hd, rfl⟩
+    · decide
+    · exact ⟨digitChar_ne_nul d (by omega) false, digitChar_lower_not_upper d (by omega)⟩
+  have lowN : ∀ n : Nat, ∀ x ∈ canonNat false base.toNat n, x ≠ 0#8 ∧ ¬ (65 ≤ x.toNat ∧ x.toNat ≤ 90) := by
+    intro n x hx
+    obtain ⟨d, hd, rfl⟩ := canonNat_mem hb.1 false _ x hx
+    exact ⟨digitChar_ne_nul d (by omega) false, digitChar_lower_not_upper d (by omega)⟩
+  have b32 : (canonInt false base.toNat n32.toInt).length + 1 ≤ 66 :=
+    canonInt_bytes_le_66 false _ hb.1 _ (natAbs_lt32 n32)
+  have b64 : (canonInt false base.toNat n64.toInt).length + 1 ≤ 66 :=
+    canonInt_bytes_le_66 false _ hb.1 _ (natAbs_lt64 n64)
+  have u32 : (canonNat false base.toNat n32.toNat).length + 1 ≤ 66 := by
+    have := digits_length_le_64 base.toNat n32.toNat hb.1 (by have := n32.isLt; omega)
+    rw [canonNat_length]; omega
+  have u64 : (canonNat false base.toNat n64.toNat).length + 1 ≤ 66 := by
+    have := digits_length_le_64 base.toNat n64.toNat hb.1 n64.isLt
+    rw [canonNat_length]; omega
+  refine ⟨?_, ?_, ?_, ?_⟩
+  · intro m' h hc
+    rw [itoa_canonical n32 base hb m (by omega)] at h
+    cases h; exact key _ _ (lowI _) hc
+  · intro m' h hc
+    rw [utoa_canonical n32 base hb m (by omega)] at h
+    cases h; exact key _ _ (lowN _) hc
+  · intro m' h hc
+    rw [ltoa_canonical n64 base hb m (by omega)] at h
+    cases h; exact key _ _ (lowI _) hc
+  · intro m' h hc
+    rw [ultoa_canonical n64 base hb m (by omega)] at h
+    cases h; exact key _ _ (lowN _) hc
+
+-- the hypotheses are satisfiable and the conclusion is not vacuous: utoa(255, 16) = "ff", igris_u32toa gives "FF"
+example : utoa 255#32 (List.replicate 66 0xA5#8) 16#16 = some (0x66#8 :: 0x66#8 :: 0#8 :: List.replicate 63 0xA5#8, 0) := by decide
+example : (u32toa 255#32 (List.replicate 66 0xA5#8) 16#8).map (fun r => r.1.take r.2) = some [0x46#8, 0x46#8] := by decide
+
+/-- libc atol on EVERY text of the shape  blanks* [+|-] decimal-digits* non-digit ... :
+    the value of the digits with the sign applied when it fits a `long`, and undefined behaviour
+    (signed overflow, `none`) exactly when it does not — `LONG_MIN` is accepted, `2^63` is not.
+    Leading zeros, `+`, no digits at all (value 0) are all covered. -/
+theorem atol_grammar (ws sg : List Byte) (ds : List Nat) (t : Byte) (rest : List Byte)
+    (hws : ∀ c ∈ ws, c ∈ spaceChars) (hsg : sg = [] ∨ sg = [0x2B#8] ∨ sg = [0x2D#8]) (hds : ∀ d ∈ ds, d < 10)
+    (ht : t ∉ decimalChars) (hfirst : sg = [] → ds = [] → t ∉ spaceChars ∧ t ≠ 0x2B#8 ∧ t ≠ 0x2D#8) :
+    atol (ws ++ sg ++ ds.map (digitChar false) ++ t :: rest)
+      = if sg = [0x2D#8] then
+          (if ofDigits 10 ds ≤ 2 ^ 63 then some (BitVec.ofInt 64 (-(ofDigits 10 ds : Int))) else none)
+        else (if ofDigits 10 ds < 2 ^ 63 then some (BitVec.ofInt 64 (ofDigits 10 ds : Int)) else none) := by
+  have hws' : ∀ c ∈ ws, isspaceC c = true := by
+    intro c hc; rw [isspaceC_iff]; simpa using hws c hc
+  have ht' : isdigitC t = false := by rw [isdigitC_iff]; simpa using ht
+  rcases hsg with rfl | rfl | rfl
+  · -- no sign: the first character after the blanks is a digit or `t`
+    cases ds with
+    | nil =>
+      obtain ⟨h1, h2, h3⟩ := hfirst rfl rfl
+      have hsp : isspaceC t = false := by rw [isspaceC_iff]; simpa using h1
+      have e2 : (t == 0x2D#8) = false := by simpa using h3
+      have e3 : (t == 0x2B#8) = false := by simpa using h2
+      simp only [List.append_nil, List.map_nil]
+      unfold atol
+      rw [skipSpace_append ws t rest hws' hsp]
+      simp only [e2, e3, Bool.or_self, Bool.false_eq_true, if_false]
+      have := atol_tail false [] t rest (by simp) ht'
+      simp only [List.map_nil, List.nil_append, Bool.false_eq_true, if_false] at this
+      rw [this]; simp
+    | cons d ds =>
+      have hf := dec_char_facts d (hds d (by simp))
+      simp only [List.append_nil, List.map_cons, List.append_assoc, List.cons_append]
+      unfold atol
+      rw [skipSpace_append ws _ _ hws' hf.2.2.1]
+      simp only [hf.2.2.2.1, hf.2.2.2.2, Bool.or_self, Bool.false_eq_true, if_false]
+      have := atol_tail false (d :: ds) t rest hds ht'
+      simp only [List.map_cons, List.cons_append, Bool.false_eq_true, if_false] at this
+      rw [this]; simp
+  · have hsp : isspaceC 0x2B#8 = false := by decide
+    simp only [List.append_assoc, List.cons_append, List.nil_append]
+    unfold atol
+    rw [skipSpace_append ws _ _ hws' hsp]
+    have e1 : (0x2B#8 == 0x2D#8) = false := by decide
+    have e2 : (0x2B#8 == 0x2B#8) = true := by decide
+    simp only [e1, e2, Bool.or_true, if_true, Bool.false_eq_true, if_false]
+    have := atol_tail false ds t rest hds ht'
+    simp only [Bool.false_eq_true, if_false] at this
+    rw [this]; simp
+  · have hsp : isspaceC 0x2D#8 = false := by decide
+    simp only [List.append_assoc, List.cons_append, List.nil_append]
+    unfold atol
+    rw [skipSpace_append ws _ _ hws' hsp]
+    have e1 : (0x2D#8 == 0x2D#8) = true := by decide
+    simp only [e1, Bool.true_or, if_true]
+    have := atol_tail true ds t rest hds ht'
+    simp only [if_true] at this
+    rw [this]
+
+-- satisfiable; "  +0012x" is 12, "-9223372036854775808" is LONG_MIN, "9223372036854775808" overflows
+example : atol [0x20#8, 0x20#8, 0x2B#8, 0x30#8, 0x30#8, 0x31#8, 0x32#8, 0x78#8, 0#8] = some 12#64 := by decide
+
+
+/-! ## J. the remaining renderers of dprint_func_impl.c and the hexascii.h helpers -/
+
+/-- debug_writehex / debug_writebin: the bytes `ptr[0 .. size)` in order, each as two upper-case
+    hex digits / eight binary digits; the routine reads exactly that range (a `size` that reaches
+    past the object is an out-of-bounds read, `size = 0` reads nothing) -/
+theorem writehex_writebin_spec (mem : List Byte) (p : Nat) (size : BitVec 16) :
+    writehex mem p size
+      = (if size.toNat = 0 ∨ p + size.toNat ≤ mem.length then
+          some (((mem.drop p).take size.toNat).flatMap fun b => (fixedDigits 16 2 b.toNat).map (digitChar true))
+         else none) ∧
+    writebin mem p size
+      = (if size.toNat = 0 ∨ p + size.toNat ≤ mem.length then
+          some (((mem.drop p).take size.toNat).flatMap fun b => (fixedDigits 2 8 b.toNat).map (digitChar true))
+         else none) := by
+  constructor
+  · simp only [writehex, writeFwdLoop_spec]
+    split
+    · simp only [Option.map_some, emit_nil_reverse]
+      congr 2; funext b; exact printhexU8_spec b
+    · rfl
+  · simp only [writebin, writeFwdLoop_spec]
+    split
+    · simp only [Option.map_some, emit_nil_reverse]
+      congr 2; funext b; exact printbinU8_spec b
+    · rfl
+
+/-- debug_writehex_reversed / debug_writebin_reversed / debug_printhex_n: the same range, highest
+    address first -/
+theorem writehex_reversed_spec (mem : List Byte) (p : Nat) (size : BitVec 16) (n : Nat) :
+    writehexReversed mem p size
+      = (if size.toNat = 0 ∨ p + size.toNat ≤ mem.length then
+          some (((mem.drop p).take size.toNat).reverse.flatMap fun b => (fixedDigits 16 2 b.toNat).map (digitChar true))
+         else none) ∧
+    writebinReversed mem p size
+      = (if size.toNat = 0 ∨ p + size.toNat ≤ mem.length then
+          some (((mem.drop p).take size.toNat).reverse.flatMap fun b => (fixedDigits 2 8 b.toNat).map (digitChar true))
+         else none) ∧
+    printhexN mem p n
+      = (if n = 0 ∨ p + n ≤ mem.length then
+          some (((mem.drop p).take n).reverse.flatMap fun b => (fixedDigits 16 2 b.toNat).map (digitChar true))
+         else none) := by
+  have e : ∀ k : Nat, p + k - k = p := by intro k; omega
+  have c : ∀ k : Nat, (k = 0 ∨ k ≤ p + k ∧ p + k ≤ mem.length) ↔ (k = 0 ∨ p + k ≤ mem.length) := by
+    intro k; constructor <;> intro h <;> omega
+  refine ⟨?_, ?_, ?_⟩
+  · simp only [writehexReversed, writeRevLoop_spec, e, c]
+    split
+    · simp only [Option.map_some, emit_nil_reverse]
+      congr 2; funext b; exact printhexU8_spec b
+    · rfl
+  · simp only [writebinReversed, writeRevLoop_spec, e, c]
+    split
+    · simp only [Option.map_some, emit_nil_reverse]
+      congr 2; funext b; exact printbinU8_spec b
+    · rfl
+  · simp only [printhexN, hexNLoop_eq, writeRevLoop_spec, e, c]
+    split
+    · simp only [Option.map_some, emit_nil_reverse]
+      congr 2; funext b; exact printhexU8_spec b
+    · rfl
+
+example : writehex [0x01#8, 0xAB#8] 0 2#16 = some [0x30#8, 0x31#8, 0x41#8, 0x42#8] := by decide
+example : writehexReversed [0x01#8, 0xAB#8] 0 2#16 = some [0x41#8, 0x42#8, 0x30#8, 0x31#8] := by decide
+example : writehex [0x01#8] 0 2#16 = none := by decide
+
+/-- the typed hexadecimal entry points (`debug_printhex_unsigned_short … signed_long_long`, which go
+    through the pointer loop of debug_printhex_n on the object representation) and
+    debug_printhex_ptr: the upper-case base-16 digits at the full width of the type -/
+theorem printhex_typed_entry_points (a8 : BitVec 8) (a16 : BitVec 16) (a32 : BitVec 32) (a64 : BitVec 64) :
+    printhexChar a8 = some ((fixedDigits 16 2 a8.toNat).map (digitChar true)) ∧
+    printhexShort a16 = some ((fixedDigits 16 4 a16.toNat).map (digitChar true)) ∧
+    printhexInt a32 = some ((fixedDigits 16 8 a32.toNat).map (digitChar true)) ∧
+    printhexLong a64 = some ((fixedDigits 16 16 a64.toNat).map (digitChar true)) ∧
+    printhexPtr a64 = some ((fixedDigits 16 16 a64.toNat).map (digitChar true)) := by
+  have key : ∀ {w : Nat} (k : Nat) (a : BitVec w),
+      (writeRevLoop printhexU8 (bytesLE a k).toArray k k []).map List.reverse = some (printhexBytes (bytesLE a k)) := by
+    intro w k a
+    rw [writeRevLoop_spec]
+    have : k = 0 ∨ k ≤ k ∧ k ≤ (bytesLE a k).length := by rw [bytesLE_length]; omega
+    rw [if_pos this]
+    simp only [Option.map_some, emit_nil_reverse, Nat.sub_self, List.drop_zero, printhexBytes]
+    rw [List.take_of_length_le (by rw [bytesLE_length]; omega)]
+  refine ⟨by rw [printhexChar, printhexU8_spec], ?_, ?_, ?_, ?_⟩
+  · rw [printhexShort, printhexN, hexNLoop_eq]; simp only [Nat.zero_add]
+    rw [key 2 a16, printhexBytes_spec 2 a16]
+  · rw [printhexInt, printhexN, hexNLoop_eq]; simp only [Nat.zero_add]
+    rw [key 4 a32, printhexBytes_spec 4 a32]
+  · rw [printhexLong, printhexN, hexNLoop_eq]; simp only [Nat.zero_add]
+    rw [key 8 a64, printhexBytes_spec 8 a64]
+  · rw [printhexPtr, writehexReversed]
+    have : (8#16 : BitVec 16).toNat = 8 := rfl
+    simp only [this, Nat.zero_add]
+    rw [key 8 a64, printhexBytes_spec 8 a64]
+
+/-- the fixed-width hex/binary text IS the canonical text, zero-padded on the left to the width
+    of the type (audit F2b: `fixed_width_is_padded_canonical` instantiated for the shipped widths) -/
+theorem printhex_is_padded_canonical (a8 : Byte) (a16 : BitVec 16) (a32 : BitVec 32) (a64 : BitVec 64) :
+    printhexU8 a8 = List.replicate (2 - (canonNat true 16 a8.toNat).length) 0x30#8 ++ canonNat true 16 a8.toNat ∧
+    printhexU16 a16 = List.replicate (4 - (canonNat true 16 a16.toNat).length) 0x30#8 ++ canonNat true 16 a16.toNat ∧
+    printhexU32 a32 = List.replicate (8 - (canonNat true 16 a32.toNat).length) 0x30#8 ++ canonNat true 16 a32.toNat ∧
+    printhexU64 a64 = List.replicate (16 - (canonNat true 16 a64.toNat).length) 0x30#8 ++ canonNat true 16 a64.toNat ∧
+    printbinU64 a64 = List.replicate (64 - (canonNat true 2 a64.toNat).length) 0x30#8 ++ canonNat true 2 a64.toNat := by
+  have z : digitChar true 0 = 0x30#8 := by decide
+  obtain ⟨h8, h16, h32, h64⟩ := printhex_fixed_width a16 a32 a64 a8
+  have b64 := (printbin_fixed_width a16 a32 a64 a8).2.2.2
+  refine ⟨?_, ?_, ?_, ?_, ?_⟩
+  · rw [h8, fixed_width_is_padded_canonical 16 1 _ (by omega) (by have := a8.isLt; omega), z]
+  · rw [h16, fixed_width_is_padded_canonical 16 3 _ (by omega) (by have := a16.isLt; omega), z]
+  · rw [h32, fixed_width_is_padded_canonical 16 7 _ (by omega) (by have := a32.isLt; omega), z]
+  · rw [h64, fixed_width_is_padded_canonical 16 15 _ (by omega) (by have := a64.isLt; omega), z]
+  · rw [b64, fixed_width_is_padded_canonical 2 63 _ (by omega) (by have := a64.isLt; omega), z]
+
+/-- the literal clause "same canonical text" does NOT hold for the hex printers: 5 prints as "05" -/
+theorem printhex_not_canonical_witness : printhexU8 5#8 ≠ canonNat true 16 5 := by
+  intro h
+  have hl := congrArg List.length h
+  rw [canonNat_length, digits, lsd_small (by omega)] at hl
+  revert hl; decide
+
+/-- every decimal entry point at its own C type (audit F3): the canonical decimal text of the
+    value of that type — zero extension for the unsigned, sign extension for the signed ones,
+    the most negative value of every width included -/
+theorem printdec_typed_entry_points (x8 : BitVec 8) (x16 : BitVec 16) (x32 : BitVec 32) (x64 : BitVec 64) :
+    printdecU8 x8 = some (canonNat false 10 x8.toNat) ∧ printdecU16 x16 = some (canonNat false 10 x16.toNat) ∧
+    printdecU32 x32 = some (canonNat false 10 x32.toNat) ∧
+    printdecUChar x8 = some (canonNat false 10 x8.toNat) ∧ printdecUShort x16 = some (canonNat false 10 x16.toNat) ∧
+    printdecUInt x32 = some (canonNat false 10 x32.toNat) ∧ printdecULong x64 = some (canonNat false 10 x64.toNat) ∧
+    printdecULL x64 = some (canonNat false 10 x64.toNat) ∧
+    printdecSChar x8 = some (canonInt false 10 x8.toInt) ∧ printdecSShort x16 = some (canonInt false 10 x16.toInt) ∧
+    printdecSInt x32 = some (canonInt false 10 x32.toInt) ∧ printdecSLong x64 = some (canonInt false 10 x64.toInt) := by
+  have z8 : (x8.zeroExtend 64).toNat = x8.toNat := by
+    simp [BitVec.zeroExtend_eq_setWidth]; have := x8.isLt; omega
+  have z16 : (x16.zeroExtend 64).toNat = x16.toNat := by
+    simp [BitVec.zeroExtend_eq_setWidth]; have := x16.isLt; omega
+  have z32 : (x32.zeroExtend 64).toNat = x32.toNat := by
+    simp [BitVec.zeroExtend_eq_setWidth]; have := x32.isLt; omega
+  have s8 : (x8.signExtend 64).toInt = x8.toInt := BitVec.toInt_signExtend_of_le (by omega)
+  have s16 : (x16.signExtend 64).toInt = x16.toInt := BitVec.toInt_signExtend_of_le (by omega)
+  have s32 : (x32.signExtend 64).toInt = x32.toInt := BitVec.toInt_signExtend_of_le (by omega)
+  simp only [printdecU8, printdecU16, printdecU32, printdecUChar, printdecUShort, printdecUInt, printdecULong,
+    printdecULL, printdecSChar, printdecSShort, printdecSInt, printdecSLong, printdecU64_spec, printdecSLL_spec,
+    z8, z16, z32, s8, s16, s32, and_self]
+
+/-- a base outside 2..36 (an `unsigned short` here: 0, 1, 37, 266, 65535 …) makes every libc
+    shim store the empty string and return `buf` (audit F5) -/
+theorem lc_base_out_of_range (n32 : BitVec 32) (n64 : BitVec 64) (base : BitVec 16)
+    (h : base.toNat < 2 ∨ base.toNat > 36) (x : Byte) (rest : List Byte) :
+    itoa n32 (x :: rest) base = some (0#8 :: rest, 0) ∧ utoa n32 (x :: rest) base = some (0#8 :: rest, 0) ∧
+    ltoa n64 (x :: rest) base = some (0#8 :: rest, 0) ∧ ultoa n64 (x :: rest) base = some (0#8 :: rest, 0) := by
+  simp [itoa, utoa, ltoa, ultoa, wr, h]
+
+/-- hexascii.h: `uint8/16/32/64_to_hex` write the upper-case base-16 digits at the full width of
+    the type (2, 4, 8, 16 characters, no terminator) -/
+theorem uint_to_hex_fixed_width (a8 : Byte) (a16 : BitVec 16) (a32 : BitVec 32) (a64 : BitVec 64) :
+    uint8ToHex a8 = (fixedDigits 16 2 a8.toNat).map (digitChar true) ∧
+    uintToHex a16 2 = (fixedDigits 16 4 a16.toNat).map (digitChar true) ∧
+    uintToHex a32 4 = (fixedDigits 16 8 a32.toNat).map (digitChar true) ∧
+    uintToHex a64 8 = (fixedDigits 16 16 a64.toNat).map (digitChar true) :=
+  ⟨by rw [uint8ToHex_eq, printhexU8_spec], by rw [uintToHex_eq, printhexBytes_spec 2 a16],
+   by rw [uintToHex_eq, printhexBytes_spec 4 a32], by rw [uintToHex_eq, printhexBytes_spec 8 a64]⟩
+
+/-- ... and `hex_to_uint8/16/32/64` invert them for EVERY value of the type; the text may be
+    followed by anything (no terminator is read) -/
+theorem hex_to_uint_inverse (a8 : Byte) (a16 : BitVec 16) (a32 : BitVec 32) (a64 : BitVec 64) (rest : List Byte) :
+    hexToUint 8 1 (uint8ToHex a8 ++ rest) = some a8 ∧ hexToUint 16 2 (uintToHex a16 2 ++ rest) = some a16 ∧
+    hexToUint 32 4 (uintToHex a32 4 ++ rest) = some a32 ∧ hexToUint 64 8 (uintToHex a64 8 ++ rest) = some a64 := by
+  refine ⟨?_, hexToUint_uintToHex 2 (by decide) a16 rest, hexToUint_uintToHex 4 (by decide) a32 rest,
+    hexToUint_uintToHex 8 (by decide) a64 rest⟩
+  have := hexToUint_uintToHex 1 (by decide) a8 rest
+  simpa [uintToHex, bytesLE] using this
+
+/-- `hex_to_uintNN` reads the digits in either case: the fixed-width text written with lower-case
+    (or upper-case) letters parses to the value; `hex2half` maps both characters of a hex digit
+    to its value (audit F4; the unrepaired `hex2half('a')` was 42) -/
+theorem hex_to_uint_either_case (up : Bool) (a32 : BitVec 32) (a64 : BitVec 64) (rest : List Byte) :
+    hexToUint 32 4 ((fixedDigits 16 8 a32.toNat).map (digitChar up) ++ rest) = some a32 ∧
+    hexToUint 64 8 ((fixedDigits 16 16 a64.toNat).map (digitChar up) ++ rest) = some a64 ∧
+    (∀ d, d < 16 → (hex2half (digitChar up d)).toNat = d) := by
+  have key : ∀ {w : Nat} (k : Nat) (a : BitVec w),
+      (bytesLE a k).reverse.flatMap (fun b => [digitChar up (b.toNat / 16), digitChar up (b.toNat % 16)])
+        = (fixedDigits 16 (2 * k) a.toNat).map (digitChar up) := by
+    intro w k
+    induction k with
+    | zero => intro a; simp [bytesLE, fixedDigits]
+    | succ k ih =>
+      intro a
+      have h1 : (a.truncate 8).toNat = a.toNat % 256 := by simp [BitVec.truncate_eq_setWidth]
+      have h2 : (a >>> 8).toNat = a.toNat / 256 := by simp [BitVec.toNat_ushiftRight, Nat.shiftRight_eq_div_pow]
+      have e : 2 * (k + 1) = 2 * k + 1 + 1 := by omega
+      rw [e]
+      simp only [bytesLE, List.reverse_cons, List.flatMap_append, List.flatMap_cons, List.flatMap_nil, List.append_nil,
+        fixedDigits, List.map_append, List.map_cons, List.map_nil, ih (a >>> 8), h1, h2]
+      have d1 : a.toNat / 16 / 16 = a.toNat / 256 := by rw [Nat.div_div_eq_div_mul]
+      have d2 : a.toNat % 256 / 16 = a.toNat / 16 % 16 := by omega
+      have d3 : a.toNat % 256 % 16 = a.toNat % 16 := by omega
+      rw [d1, d2, d3]
+      simp
+  refine ⟨?_, ?_, fun d hd => hex2half_digit d hd up⟩
+  · have := hexToUint_case up 4 (by decide) a32 rest
+    rwa [key 4 a32] at this
+  · have := hexToUint_case up 8 (by decide) a64 rest
+    rwa [key 8 a64] at this
+
 end Igris.C07
